@@ -2353,6 +2353,12 @@ class Head(Expr):
                 # operands with different rows are aligned by the operation
                 return
             rows = {e._name for e in _row_operands(self.frame)}
+            if self.frame.npartitions == 1 and any(
+                dep._name not in rows for dep in self.frame.dependencies()
+            ):
+                # on one partition a column of the frame cannot be told from a
+                # broadcast operand, leave the operation below us
+                return
             operands = [
                 (
                     Head(op, self.n, self.operand("npartitions"))
@@ -2474,6 +2480,12 @@ class Tail(Expr):
                 # operands with different rows are aligned by the operation
                 return
             rows = {e._name for e in _row_operands(self.frame)}
+            if self.frame.npartitions == 1 and any(
+                dep._name not in rows for dep in self.frame.dependencies()
+            ):
+                # on one partition a column of the frame cannot be told from a
+                # broadcast operand, leave the operation below us
+                return
             operands = [
                 (
                     Tail(op, self.n)
